@@ -34,6 +34,8 @@ CLAIMS = {
             "lock-state dataflow + DOM/MPT rules + unit typing + interval analysis over clang AST/CFG", "3 C11"),
     "C15": ("parser-cursor abstract interpretation (bytes known non-NUL at the cursor, join = min) over readToken/skipSpace/stripComments: no advance or offset read beyond what dominating tests establish, every tokenizer loop cycle advances; table agreement between the string reader's special bytes and the writer's escapes with round-trip of each escape; serialiser/parser exhaustiveness over tags and token kinds; stripComments output bound and string-mode typestate; equality of re-parsed trees in general and recursion depth are NOT decided",
             "CUR abstract interpretation + TBL/TAG table rules over clang AST/CFG", "3 C15"),
+    "C16": ("parser-cursor abstract interpretation over the XML tokenizer (bounds and per-loop progress), a save/rewind-aware progress argument for the content loop of parseElement with callee summaries, escape-table agreement between reader stop sets and writer escapes (tables read from the initialisers), stale-pointer rule for raw String buffers across reallocating calls, copy-on-write rules for element values (shared with C09), line/lineStart pairing (1 known finding); structural equality of re-parsed element trees in general is NOT decided",
+            "CUR abstract interpretation + TBL/ALIAS/PAIRF rules over clang AST/CFG", "3 C16"),
     "C08": ("path and pairing rules over every Buffer member: terminator after every end update on owning paths, ownership<->capacity pairing, allocation X+1 with _capacity X, release/re-seat pairing, complete swap, rule of three, and linear-inequality entailment (own Fourier-Motzkin over dominating guards + class invariant) that every copy/move target and terminator store lies inside the allocation; content equality with a reference byte queue is NOT decided",
             "MPT/PAIRF path rules + linear-inequality abstract domain over clang AST/CFG", "3 C08"),
 }
